@@ -53,6 +53,14 @@ Theorem code_helpers_refine_Kin : forall t tr,
   wf_ids t -> tree_of_topo t = Some tr -> NoDup (leaves tr) -> tree_agrees t tr.
 Proof. exact gen_helpers_refine_Kin. Qed.
 
+(** the decay chain the code walks (and hence, reversed and without the initial state, the chain of frames a momentum is
+    boosted through) is the path from the state to the root of the isobar tree, for every topology, every state of the
+    tree and every fuel above the length of that path *)
+Theorem code_decay_chain_is_tree_path : forall t tr x p fuel, wf_ids t -> tree_of_topo t = Some tr ->
+  gen_assert_isobar_topology t = Ok tt -> path_up tr x = Some p -> (length p < fuel)%nat ->
+  gen_list_decay_chain_ids fuel t x = Ok p.
+Proof. exact gen_decay_chain_is_tree_path. Qed.
+
 (** Instance theorem (re-checked on every run against the topologies qrules creates NOW, plus renumbered variants):
     on each of them the translated helpers agree, at every node, with the hand model Kin.v that the C07 theorems are
     about (attached final states, sibling, opposite-helicity flag, parent), and assert_isobar_topology accepts it. *)
@@ -71,6 +79,15 @@ Example code_refinement_hypotheses_hold_on_current_topologies :
   forallb refine_hyps_ok current_topologies = true.
 Proof. vm_compute. reflexivity. Qed.
 
+Example code_tree_path_example :
+  let t := {| rt_nodes := [0; 1]; rt_edges := [E (-1) None (Some 0); E 0 (Some 0) None; E 3 (Some 0) (Some 1);
+                                               E 1 (Some 1) None; E 2 (Some 1) None] |} in
+  match tree_of_topo t with
+  | Some tr => path_up tr 1 = Some [1; 3; -1] /\ path_up tr 0 = Some [0; -1] /\ gen_assert_isobar_topology t = Ok tt
+  | None => False
+  end.
+Proof. vm_compute. repeat split; reflexivity. Qed.
+
 Example code_decay_chain_example :
   let t := {| rt_nodes := [0; 1]; rt_edges := [E (-1) None (Some 0); E 0 (Some 0) None; E 3 (Some 0) (Some 1);
                                                E 1 (Some 1) None; E 2 (Some 1) None] |} in
@@ -84,4 +101,5 @@ Print Assumptions code_decay_chain_links.
 Print Assumptions code_decay_chain_fuel_irrelevant.
 Print Assumptions code_boost_chain_is_reversed_decay_chain.
 Print Assumptions code_helpers_refine_Kin.
+Print Assumptions code_decay_chain_is_tree_path.
 Print Assumptions code_helpers_agree_with_Kin_on_current_topologies.
